@@ -15,7 +15,11 @@ import json, os, signal, struct, sys
 from fractions import Fraction
 
 import sc3
-sc3.init(os.environ.get('SC3_MODE', 'nrt'))
+INIT_ERROR = None
+try:
+    sc3.init(os.environ.get('SC3_MODE', 'nrt'))
+except BaseException as e:      # a broken encoder can make the library fail to start: keep going
+    INIT_ERROR = '%s: %s' % (type(e).__name__, e)
 from sc3.base.main import main
 from sc3.base import _osclib as oli, _oscinterface as osci, clock as clk, netaddr as nad
 
@@ -27,9 +31,11 @@ class _Base(osci.OscInterface):
 
 
 BASE_OFFSET = 3913056000 << 32
-NRT_ITF = main._osc_interface
 BASE_ITF = _Base()
-ADDR = nad.NetAddr('127.0.0.1', 57110)
+NRT_ITF = getattr(main, '_osc_interface', None) if INIT_ERROR is None else None
+if NRT_ITF is None:
+    NRT_ITF = BASE_ITF
+ADDR = nad.NetAddr.__new__(nad.NetAddr)      # the size methods use no instance state
 
 
 class Hang(Exception):
@@ -93,7 +99,11 @@ def canon_param(p):
     if isinstance(p, float):
         if p != p:
             return ['nan']
-        return ['f', struct.pack('>f', p).hex(), struct.pack('>d', p).hex()]
+        try:
+            w4 = struct.pack('>f', p).hex()
+        except OverflowError:       # a double that is no binary32: cannot have come from an 'f' tag
+            w4 = ''
+        return ['f', w4, struct.pack('>d', p).hex()]
     if isinstance(p, str):
         return ['s', p.encode('utf-8', 'surrogatepass').hex()]
     if isinstance(p, (bytes, bytearray, memoryview)):
@@ -196,7 +206,7 @@ def main_():
                 out.append(run_build(c))
         except BaseException as e:     # never let one case kill the run
             out.append({'crash': '%s: %s' % (type(e).__name__, e)})
-    json.dump({'out': out}, open(sys.argv[2], 'w'))
+    json.dump({'out': out, 'init_error': INIT_ERROR}, open(sys.argv[2], 'w'))
 
 
 main_()
